@@ -2,6 +2,7 @@
   C04 — Striping is a lossless, backend-independent rearrangement of the sequence.
 -/
 import LMV.Lemmas.Stripe
+import LMV.Lemmas.StripeAvx2
 import LMV.Model.StripeAvx2
 import Mathlib.Tactic.SplitIfs
 
@@ -302,6 +303,145 @@ theorem index_eq (hC : 0 < C) (N : Nat) (st : Striped C) (s : List Nat) (h : Inv
   have : i / seqRowsOf C s.length * seqRowsOf C s.length + i % seqRowsOf C s.length = i := by
     rw [Nat.mul_comm]; exact Nat.div_add_mod i _
   rw [this]; rfl
+
+/-! ### (2) the AVX2 kernel and every dispatcher arm equal generic striping -/
+
+section avx2
+open StripeAvx2
+
+theorem getD_irrel (s : List Nat) (p a b : Nat) (h : p < s.length) : s.getD p a = s.getD p b := by
+  simp [List.getD, List.getElem?_eq_getElem h]
+
+/-- the scalar tail loop of `stripe_avx2`, as a conditional rectangle write -/
+theorem tail_eq (N : Nat) (arr : Array Nat) (stride i0 length : Nat) (d : Mat Nat 32) :
+    (List.range (stride - i0)).foldl (fun d k =>
+      let i := i0 + k
+      (List.range 32).foldl (fun d j =>
+        if j * stride + i < length then d.set i j (arr.getD (j * stride + i) N) else d) d) d
+    = condRectWrite i0 (stride - i0) 32 (fun k j => decide (j * stride + (i0 + k) < length))
+        (fun k j => arr.getD (j * stride + (i0 + k)) N) d := by
+  unfold condRectWrite condRowWrite
+  apply foldl_ext_mem
+  intro d k _
+  apply foldl_ext_mem
+  intro d j _
+  simp only [decide_eq_true_eq]
+
+/-- **C04, backend independence**: for every sequence, every previous content of the buffer and
+    EVERY value of the bytes the kernel loads past the end of the symbol buffer, the AVX2 kernel
+    produces exactly the striped sequence the generic loop produces. -/
+theorem stripeAvx2_eq_generic (N : Nat) (junk : Nat → Nat) (s : List Nat) (old : Striped 32) :
+    StripeAvx2.stripe N junk s old = stripeGeneric N s old := by
+  have hC : 0 < 32 := by decide
+  by_cases hL : s.length = 0
+  · -- early return: the buffer was taken and never put back = the default (empty) striped sequence
+    have hs : s = [] := List.eq_nil_of_length_eq_zero hL
+    subst hs
+    unfold StripeAvx2.stripe
+    simp only [List.length_nil, if_true]
+    unfold stripeGeneric Striped.empty
+    simp only [List.length_nil]
+    congr 1
+    apply Mat.ext
+    · simp [writeCells_rows]
+    · intro r c hr; simp at hr
+  · have hstruct : ∃ d, StripeAvx2.stripe N junk s old = ⟨d, s.length, 0⟩ ∧
+        d.rows = seqRowsOf 32 s.length ∧
+        ∀ r c, r < seqRowsOf 32 s.length → c < 32 →
+          d.get r c = pad N s (c * seqRowsOf 32 s.length + r) := by
+      unfold StripeAvx2.stripe
+      simp only [hL, if_false]
+      have hstride : (s.length + 31) / 32 = seqRowsOf 32 s.length := rfl
+      rw [hstride]
+      generalize hR : seqRowsOf 32 s.length = R
+      obtain ⟨i0, d1, he, h1, h2, h3, h4, h5⟩ :=
+        blockLoop_spec junk s.toArray R R 0 (old.data.resize R N) (by omega)
+      rw [he]
+      simp only
+      rw [tail_eq]
+      refine ⟨_, rfl, ?_, ?_⟩
+      · rw [writeCells_rows, condRectWrite_rows, h4, Mat.rows_resize]
+      · intro r c hr hc
+        have hRpos : 0 < R := by omega
+        have hge : s.length ≤ R * 32 := by rw [← hR]; exact seqRowsOf_mul_ge hC s.length
+        have hi0 : i0 ≤ R := by omega
+        have hp : c * R + r < 32 * R := by
+          have : c * R + r < (c + 1) * R := by rw [Nat.add_mul]; omega
+          have h2 : (c + 1) * R ≤ 32 * R := Nat.mul_le_mul_right _ (by omega)
+          omega
+        rw [writeCells_get _ hRpos, condRectWrite_rows, h4, Mat.rows_resize,
+          condRectWrite_get _ _ _ (Nat.le_refl 32), h4, Mat.rows_resize, h5 r c, Mat.rows_resize]
+        by_cases hlt : c * R + r < s.length
+        · -- a real symbol: written either by a transposed block or by the scalar tail
+          rw [if_neg (by omega)]
+          by_cases hblk : r < i0
+          · rw [if_neg (by omega), if_pos ⟨by omega, hblk, hc, hr⟩]
+            simp only [srcVal, List.size_toArray, hlt, if_true, toArray_getD, pad]
+            exact getD_irrel s _ 0 N hlt
+          · have hk : i0 + (r - i0) = r := by omega
+            rw [if_pos ⟨by omega, by omega, hc, hr, by rw [hk]; exact decide_eq_true hlt⟩]
+            rw [hk, toArray_getD]; rfl
+        · -- past the end: the fill loop writes the wildcard, whatever the blocks loaded there
+          rw [if_pos ⟨hr, by omega, by omega, hr, hc⟩, pad_of_le _ _ _ (by omega)]
+    obtain ⟨d, hd, hrows, hcells⟩ := hstruct
+    rw [hd]
+    have hg : stripeGeneric N s old = ⟨(stripeGeneric N s old).data, s.length, 0⟩ := rfl
+    rw [hg]
+    congr 1
+    apply Mat.ext
+    · rw [hrows, stripeGeneric_rows]
+    · intro r c hr hc
+      rw [hrows] at hr
+      rw [hcells r c hr hc, stripeGeneric_get hC N s old r c hr hc]
+
+/-- every arm of the runtime dispatcher stripes like the generic backend -/
+theorem dispatch_eq_generic (N : Nat) (junk : Nat → Nat) (arm : StripeAvx2.Arm) (s : List Nat)
+    (old : Striped 32) : StripeAvx2.dispatch N junk arm s old = stripeGeneric N s old := by
+  cases arm <;> simp [StripeAvx2.dispatch, stripeAvx2_eq_generic]
+
+/-- operations on a 32-column buffer, with the striping backend chosen per call -/
+inductive StripeOp32
+  | stripeGeneric (s : List Nat)
+  | stripeAvx2 (junk : Nat → Nat) (s : List Nat)
+  | stripeDispatch (arm : StripeAvx2.Arm) (junk : Nat → Nat) (s : List Nat)
+  | configureWrap (m : Nat)
+  | configure (motifLen : Nat)
+
+def StripeOp32.apply (N : Nat) : StripeOp32 → Striped 32 × List Nat → Striped 32 × List Nat
+  | .stripeGeneric s', (st, _) => (Striped.stripeGeneric N s' st, s')
+  | .stripeAvx2 junk s', (st, _) => (StripeAvx2.stripe N junk s' st, s')
+  | .stripeDispatch arm junk s', (st, _) => (StripeAvx2.dispatch N junk arm s' st, s')
+  | .configureWrap m, (st, s) => (Striped.configureWrap N m st, s)
+  | .configure M, (st, s) => (Striped.configure N M st, s)
+
+/-- forgetting which backend striped -/
+def StripeOp32.erase : StripeOp32 → StripeOp
+  | .stripeGeneric s | .stripeAvx2 _ s | .stripeDispatch _ _ s => .stripeInto s
+  | .configureWrap m => .configureWrap m
+  | .configure M => .configure M
+
+/-- **C04, histories × backends**: any sequence of operations on one 32-column buffer, each
+    striping done by any backend or dispatcher arm, leaves exactly the buffer the generic backend
+    would leave — hence the invariant holds after all of them. -/
+theorem ops32_eq_generic (N : Nat) (ops : List StripeOp32) (x : Striped 32 × List Nat) :
+    ops.foldl (fun x op => op.apply N x) x = (ops.map StripeOp32.erase).foldl (fun x op => op.apply N x) x := by
+  induction ops generalizing x with
+  | nil => rfl
+  | cons op ops ih =>
+    simp only [List.foldl_cons, List.map_cons]
+    rw [ih]
+    congr 1
+    obtain ⟨st, s⟩ := x
+    cases op <;> simp [StripeOp32.apply, StripeOp32.erase, StripeOp.apply, stripeAvx2_eq_generic,
+      dispatch_eq_generic]
+
+theorem ops32_inv (N : Nat) (ops : List StripeOp32) (st : Striped 32) (s : List Nat) (h : Inv N st s) :
+    Inv N (ops.foldl (fun x op => op.apply N x) (st, s)).1
+          (ops.foldl (fun x op => op.apply N x) (st, s)).2 := by
+  rw [ops32_eq_generic]
+  exact ops_inv (by decide) N _ st s h
+
+end avx2
 
 /-! ### non-vacuity -/
 
